@@ -112,6 +112,20 @@ type recorder struct {
 	readBytes int
 	// the reader goroutine has finished
 	readerExited bool
+	// observations made by the controlling goroutine between hook events (sequential replay only)
+	extra []extraEv
+}
+
+type extraEv struct {
+	after int // number of hook events that precede it
+	ev    event
+}
+
+// addExtra records a query result (Err(), Done()) observed now, i.e. after all hook events so far.
+func (r *recorder) addExtra(ev string, n int, errc string) {
+	r.mu.Lock()
+	r.extra = append(r.extra, extraEv{after: len(r.hook), ev: event{Ev: ev, N: n, Err: errc, Data: []int{}, Blen: -2}})
+	r.mu.Unlock()
 }
 
 func newRecorder() *recorder {
@@ -242,7 +256,17 @@ func (r *recorder) merge(cid, capacity int, stuckAfter int, inflight map[string]
 	}
 	sort.Strings(goroutines)
 	var prev uint64
+	xi := 0
+	flushExtra := func(upto int) {
+		for xi < len(r.extra) && r.extra[xi].after <= upto {
+			e := r.extra[xi].ev
+			e.Cid, e.Cap = cid, capacity
+			evs = append(evs, e)
+			xi++
+		}
+	}
 	for i, h := range r.hook {
+		flushExtra(i)
 		if stuckAfter == i {
 			evs = append(evs, event{Cid: cid, Ev: "stuck", Cap: capacity, Err: "none", Data: []int{}, Blen: -2})
 		}
@@ -289,6 +313,7 @@ func (r *recorder) merge(cid, capacity int, stuckAfter int, inflight map[string]
 			evs = append(evs, event{Cid: cid, Ev: "panic", Cap: capacity, Err: "none", Data: []int{}, Blen: -2, Panic: a.panicked})
 		}
 	}
+	flushExtra(len(r.hook))
 	if stuckAfter >= len(r.hook) {
 		evs = append(evs, event{Cid: cid, Ev: "stuck", Cap: capacity, Err: "none", Data: []int{}, Blen: -2})
 	}
